@@ -58,7 +58,7 @@ type tcase struct {
 	PreXR     string              `json:"preXRSecret"`  // absent | typed | untyped | own | foreign
 	ClaimWant bool                `json:"claimWantsSecret"`
 	PreClaim  string              `json:"preClaimSecret"` // absent | typed | own | foreign
-	Tamper    bool                `json:"tamperXRSecretController"`
+	Tamper    string              `json:"tamperXRSecretController"` // "" | foreign | same-name-other-uid
 }
 
 func genCase(c *kit.Ctx, i int) tcase {
@@ -76,7 +76,7 @@ func genCase(c *kit.Ctx, i int) tcase {
 	}
 	t.PreXR = []string{"absent", "absent", "typed", "untyped", "own", "foreign"}[r.IntN(6)]
 	t.PreClaim = []string{"absent", "absent", "typed", "own", "foreign"}[r.IntN(5)]
-	t.Tamper = r.IntN(6) == 0
+	t.Tamper = []string{"", "", "", "", "foreign", "same-name-other-uid"}[r.IntN(6)]
 	if t.Mode == "pipeline" {
 		t.Details, t.FirstStep = map[string]string{}, map[string]string{}
 		for _, k := range keyPool {
@@ -321,10 +321,15 @@ func (w *worker) run(i int, name string) {
 		_, _, _ = xe.Reconcile("static-xr")
 	}
 	xrSecretMid := world.GetObj(xrSecretKey) // after the XR reconciles, before any tampering
-	if t.Tamper {
+	if t.Tamper != "" {
 		if s := world.GetObj(xrSecretKey); s != nil {
 			u := &unstructured.Unstructured{Object: s}
-			u.SetOwnerReferences([]metav1.OwnerReference{*foreign})
+			ref := *foreign
+			if t.Tamper == "same-name-other-uid" {
+				// e.g. the secret left behind by a deleted and re-created XR of the same name
+				ref = *own("XThing", "static-xr", "uid-of-an-earlier-incarnation")
+			}
+			u.SetOwnerReferences([]metav1.OwnerReference{ref})
 			_ = user.Update(ctx, u)
 		}
 	}
@@ -379,9 +384,6 @@ func (w *worker) run(i int, name string) {
 	} else if t.Wants {
 		before := secretData(xrSecretBefore)
 		after := secretData(xrSecretMid)
-		if t.Tamper {
-			after = secretData(xrSecretMid)
-		}
 		for k, v := range after {
 			if bv, had := before[k]; had && bv == v {
 				continue // not written by this XR
